@@ -743,12 +743,24 @@ def impl_call(case):
     import pypulseq as pp
     o = make_opts(case['sys'])
     kw = {k: v for k, v in case['args'].items() if v is not None}
+    # about one call in 16 goes through the LIBRARY DEFAULT: the case's system is installed with set_as_default() and the
+    # `system` argument is omitted (same expected result; exposes defaults bound at import time or cached between calls)
+    import hashlib as _h
+    omit = _h.sha1(repr(sorted((k, repr(v)) for k, v in case['args'].items())).encode()).hexdigest()[0] == '0'
+    old = pp.Opts.default
     try:
         with warnings.catch_warnings():
             warnings.simplefilter('ignore')
-            g = pp.make_trapezoid(case['channel'], system=o, **kw)
+            if omit:
+                o.set_as_default()
+                g = pp.make_trapezoid(case['channel'], **kw)
+            else:
+                g = pp.make_trapezoid(case['channel'], system=o, **kw)
     except Exception as e:  # noqa: BLE001
         return ('ERR', classify(e))
+    finally:
+        if omit:
+            old.set_as_default()
     try:
         vals = [F(getattr(g, f)) for f in FIELDS]
     except Exception as e:  # noqa: BLE001
